@@ -29,7 +29,7 @@ pub struct IsographDatabase<TCompilationProfile: CompilationProfile> {
 }
 
 #[derive(Debug, Default)]
-pub struct IsoLiteralMap(pub HashMap<RelativePathToSourceFile, SourceId<IsoLiteralsSource>>);
+pub struct IsoLiteralMap(pub BTreeMap<RelativePathToSourceFile, SourceId<IsoLiteralsSource>>);
 
 #[derive(Debug, Clone, PartialEq, Eq, Source)]
 pub struct SchemaSource {
@@ -146,7 +146,7 @@ impl<TCompilationProfile: CompilationProfile> IsographDatabase<TCompilationProfi
             .tracked()
             .0
             // N.B. compare whole path components: "src/ab/x.ts" is not in the folder "src/a"
-            .extract_if(|k, _| std::path::Path::new(&k.to_string()).starts_with(relative_path))
+            .extract_if(.., |k, _| std::path::Path::new(&k.to_string()).starts_with(relative_path))
             .map(|(_, v)| v)
             .collect::<Vec<_>>();
 
